@@ -46,6 +46,29 @@ def gen(seed, tier):
         # all single-bit errors in bits 6..n
         for b in range(6, nb + 1):
             hist(f, "%0*X" % (nb // 4, v ^ (1 << (nb - b))))
+    # special values of the parity field itself: all zeros, all ones, the CRC with the address overlaid (as DF4/5/20/21 do),
+    # the parity of another frame -- each a burst of at most 24 bits on a valid squitter
+    for _ in range(12 if tier == "quick" else 200):
+        f, nb = valid_squitter(g)
+        v = int(f, 16)
+        pi = v & 0xFFFFFF
+        for special in (0, 0xFFFFFF, pi ^ ((v >> (nb - 32)) & 0xFFFFFF), int(valid_squitter(g)[0], 16) & 0xFFFFFF, pi ^ 0x800000, pi ^ 1):
+            if special != pi and not (nb == 56 and (special ^ pi) < 128):
+                hist(f, "%0*X" % (nb // 4, (v & ~0xFFFFFF) | special))
+    # bookkeeping: a failing frame must not tick the expiry sweep either -- stale rows (older than -d) stay while only
+    # failing frames arrive, however many
+    for i in range(6 if tier == "quick" else 60):
+        pool = r.sample(ICAOS, 3)
+        good = [g.f_df17(a, g.me_airpos()) for a in pool] + [g.f_df11(pool[0])]
+        bad = []
+        while len(bad) < r.choice([13, 14, 25, 40]):
+            f, nb = valid_squitter(g)
+            bad.append("%0*X" % (nb // 4, int(f, 16) ^ (1 << r.randint(0, nb - 6))))
+        o = {"d": r.choice([0, 1, 2])}
+        if i % 2:
+            o["U"] = 1
+        cases.append(H("C04-s%d" % n, o, [seg(0, good), seg(r.choice([2500, 3000, 10000]), bad)]))
+        n += 1
     for _ in range(300 if tier == "quick" else 6000):
         f, nb = valid_squitter(g)
         v = int(f, 16)
@@ -70,7 +93,8 @@ def oracle(parts, outcome, obs):
         return "outcome %s" % outcome
     segs = pyspec.case_segments(parts)
     bad = segs[1][1][0]
-    fr = pyspec.frame_of_line(bad)
+    fr = None if all(pyspec.frame_of_line(x) is None for x in segs[1][1]) else "some line is a frame"
+
     o = obs.split("#")
     if len(o) != 2:
         return "missing observation"
